@@ -216,7 +216,7 @@ func (x *Exec) sortOf(t types.Type) string {
 		case types.Bool, types.UntypedBool:
 			return "Bool"
 		case types.String, types.UntypedString:
-			return "String"
+			return x.SS()
 		case types.UnsafePointer, types.UntypedNil:
 			return "Int"
 		case types.Complex64, types.Complex128:
@@ -238,9 +238,12 @@ func (x *Exec) prelude() string {
 		I = bvSort(64)
 	}
 	var sb strings.Builder
+	if !x.strTheory {
+		sb.WriteString("(declare-sort Str 0)\n")
+	}
 	sb.WriteString("(declare-datatypes ((Slice 0)) (((mk-slice (s-arr Int) (s-len " + I + ") (s-cap " + I + ")))))\n")
 	sb.WriteString("(declare-datatypes ((Val 0)) (((vnil) (vbool (v-btid Int) (v-b Bool)) (vint (v-itid Int) (v-i " + I + ")) (vuint (v-utid Int) (v-u " + I + ")) " +
-		"(vf64 (v-ftid Int) (v-f " + sF64 + ")) (vf32 (v-gtid Int) (v-g " + sF32 + ")) (vstr (v-stid Int) (v-s String)) (vptr (v-ptid Int) (v-p Int)) " +
+		"(vf64 (v-ftid Int) (v-f " + sF64 + ")) (vf32 (v-gtid Int) (v-g " + sF32 + ")) (vstr (v-stid Int) (v-s " + x.SS() + ")) (vptr (v-ptid Int) (v-p Int)) " +
 		"(vslice (v-ltid Int) (v-l Slice)) (vother (v-otid Int) (v-o Int)))))\n")
 	sb.WriteString("(define-fun tagOf ((v Val)) Int (ite ((_ is vnil) v) 0 (ite ((_ is vbool) v) (v-btid v) (ite ((_ is vint) v) (v-itid v) (ite ((_ is vuint) v) (v-utid v) " +
 		"(ite ((_ is vf64) v) (v-ftid v) (ite ((_ is vf32) v) (v-gtid v) (ite ((_ is vstr) v) (v-stid v) (ite ((_ is vptr) v) (v-ptid v) (ite ((_ is vslice) v) (v-ltid v) (v-otid v)))))))))))\n")
@@ -331,7 +334,37 @@ func smtString(s string) *string {
 	return &r
 }
 
-func (x *Exec) StrLit(s string) *Term { return x.tt.Lit(*smtString(s), "String") }
+// SS: the SMT sort of Go strings: the theory of strings when the contract says `strings`, else an uninterpreted sort.
+func (x *Exec) SS() string {
+	if x.strTheory {
+		return "String"
+	}
+	return "Str"
+}
+
+func (x *Exec) StrLit(s string) *Term {
+	if x.strTheory {
+		return x.tt.Lit(*smtString(s), "String")
+	}
+	name := "strlit$" + fmt.Sprintf("%x", s)
+	if len(s) <= 24 && isPlain(s) {
+		name = "strlit$" + fmt.Sprintf("%d_", len(s)) + s
+	}
+	t := x.tt.Sym(name, "Str")
+	if _, ok := x.strLits[name]; !ok {
+		x.strLits[name] = s
+	}
+	return t
+}
+
+func isPlain(s string) bool {
+	for _, c := range s {
+		if !(c >= 'a' && c <= 'z' || c >= 'A' && c <= 'Z' || c >= '0' && c <= '9' || c == '_' || c == '-' || c == '.') {
+			return false
+		}
+	}
+	return true
+}
 
 func (x *Exec) nilSlice() *Term {
 	return x.tt.Ctor("mk-slice", "Slice", x.tt.IntLit(0), x.GoInt(0), x.GoInt(0))
@@ -373,7 +406,7 @@ func (x *Exec) zero(t types.Type) Value {
 		return x.tt.False()
 	case "Int":
 		return x.tt.IntLit(0)
-	case "String":
+	case "String", "Str":
 		return x.StrLit("")
 	case "Slice":
 		return x.nilSlice()
